@@ -299,7 +299,7 @@ func socketpairAdapter(ioc *sonic.IO) (*sonic.AsyncAdapter, int, func(), error) 
 
 func TestC04_Timers(t *testing.T) {
 	rec := evid.For("C04")
-	rec.SetRule("rapid state machine on one IO with 2..4 timers and one socket object: ScheduleOnce/ScheduleRepeating (delays <=0 and 1..15 ms), Cancel, Close, Scheduled, NewTimer (descriptor reuse), sleep, poll, peer write to the socket (an I/O entry in the same batch); every callback runs a generated handler program that cancels/closes/re-schedules itself or ANOTHER timer; oracle = per-timer model with schedule ids: callback only for the live schedule, elapsed >= delay - 50us (monotonic), once fires <=1, repeats >= interval apart and stop after cancel (also from inside), return values, closed timers stay dead, Scheduled()==model, and liveness: after sleeping past every deadline +5 ms the loop is polled until every due callback ran (normally <=3 PollOne; a schedule still pending after 2 s of polling is reported as lost); non-trivial = a handler touched a different timer that was armed (cross-touch), or close->(cancel|schedule) on one timer, or a repeating timer cancelled from its own callback; distinct = hash of the trace")
+	rec.SetRule("rapid state machine on one IO with 2..4 timers and one socket object: ScheduleOnce/ScheduleRepeating (delays <=0 and 1..15 ms), Cancel, Close, Scheduled, NewTimer (descriptor reuse), sleep, poll, peer write to the socket (an I/O entry in the same batch); every callback runs a generated handler program that cancels/closes/re-schedules itself or ANOTHER timer; oracle = per-timer model with schedule ids: callback only for the live schedule, elapsed >= delay - 50us (monotonic), once fires <=1, repeats >= interval apart and stop after cancel (also from inside), return values, closed timers stay dead, Scheduled()==model, a live repeating schedule fires once more before it is stopped, and liveness: after sleeping past every deadline +5 ms the loop is polled until every due callback ran (normally <=3 PollOne; a schedule still pending after 2 s of polling is reported as lost); non-trivial = a handler touched a different timer that was armed (cross-touch), or close->(cancel|schedule) on one timer, or a repeating timer cancelled from its own callback; distinct = hash of the trace")
 	rec.Assume("a repeating timer is not re-scheduled from inside its own callback unless it was cancelled there first; real time: 1..15 ms delays, tolerance 50 us, liveness margin 5 ms")
 	vt.CheckSteps(t, 300, 25, func(rt *rapid.T) {
 		ioc, err := sonic.NewIO()
@@ -428,8 +428,24 @@ func TestC04_Timers(t *testing.T) {
 			},
 		})
 		check()
-		// wind down: stop repeating timers from the top level, then every once-schedule must fire
+		// wind down: a repeating schedule that is still live must fire (again) - "runs its callback repeatedly ... until
+		// cancelled" - then it is stopped from the top level; after that every once-schedule must fire
 		for i, m := range w.timers {
+			if !(m.state == tmScheduled && m.repeat) {
+				continue
+			}
+			id, fires := m.schedID, m.fires
+			if d := time.Until(m.deadline.Add(5 * time.Millisecond)); d > 0 {
+				time.Sleep(d)
+			}
+			for began := time.Now(); m.state == tmScheduled && m.repeat && m.schedID == id && m.fires == fires; {
+				poll()
+				check()
+				if time.Since(began) > 2*time.Second {
+					rt.Fatalf("repeating schedule #%d of t%d (interval %v) has not run its callback although its next tick was due %v ago and the loop kept being polled; it ran %d times so far; trace=%v", id, i, m.delay, time.Since(m.deadline), fires, w.trace)
+				}
+				time.Sleep(time.Millisecond)
+			}
 			if m.state == tmScheduled && m.repeat {
 				w.cancel(i, "end")
 			}
